@@ -230,7 +230,7 @@ def execute(ex: Execution, graph: dict[str, Any], inject: dict[str, list[str]], 
         out = task_outcome(hd._result_task)
         v: list[Any] = []
         w = {"mode": "three_fail" if fail_mode else mode.replace("staggered_", "two_")}
-        if fail_mode and not failed:
+        if fail_mode and not failed and out[0] == "result":  # (a run that ended early for another reason is judged below)
             v.append(("harness_vacuity", w, "the transient factory fault never happened"))
         any_overlap = any(r["overlapped"] for r in _SCOPES["log"] + _SCOPES["open"])
         is_cycle_err = out[0] == "exception" and "Circular resource dependency" in str(out[1])
@@ -392,6 +392,15 @@ THREE_FAIL: dict[str, tuple[dict[str, Any], dict[str, list[str]]]] = {
     "fail_nested_then_fresh": ({"n": {"async": False, "cache": False}, "f": {"async": False, "cache": False, "fail_first": True},
                                 "g": {"async": True, "cache": True, "deps": ["n", "f"]}},
                                {"s1": ["g"], "s2": ["n"], "s3": ["n", "g"]}),
+    # ... while ANOTHER step's resolution is open inside a slow async factory: the retry resolves the failed resource again
+    # before that other resolution has finished
+    "fail_async_while_other_resolves": ({"slow": {"async": True, "cache": False}, "f": {"async": True, "cache": False, "fail_first": True}},
+                                        {"s1": ["f"], "s2": ["slow"], "s3": ["f"]}),
+    "fail_sync_while_other_resolves": ({"slow": {"async": True, "cache": True}, "f": {"async": False, "cache": True, "fail_first": True}},
+                                       {"s1": ["slow"], "s2": ["f"], "s3": ["f", "slow"]}),
+    "fail_nested_while_other_resolves": ({"slow": {"async": True, "cache": False}, "f": {"async": False, "cache": False, "fail_first": True},
+                                          "g": {"async": True, "cache": False, "deps": ["f"]}},
+                                         {"s1": ["g"], "s2": ["slow"], "s3": ["g"]}),
 }
 
 
